@@ -151,8 +151,18 @@ func (ce *ContentExtractor) processDocument(doc *webdoc.Document) int {
 	textDocument := doc.CreateTextDocument()
 
 	NewArticleExtractor(ce.logger).Extract(textDocument, ce.WordCounter, ce.candidateTitles)
-	wordCount := textDocument.CountWordsInContent()
-
 	textDocument.ApplyToModel()
+
+	// The words are counted in the text that is put out for the content. The
+	// NumWords of the blocks are sums over text nodes, where a word that spans
+	// several text nodes (un<b>believ</b>able) counts once per node: good enough
+	// to classify a block, but not the number of words that the output has.
+	wordCount := 0
+	for _, element := range doc.Elements {
+		if text, isText := element.(*webdoc.Text); isText && text.IsContent() {
+			wordCount += ce.WordCounter.Count(text.GenerateOutput(true))
+		}
+	}
+
 	return wordCount
 }
